@@ -228,6 +228,18 @@ structure AS where
 
 def abs (s : PState) : AS := { pk := s.peeked, σ := s.raw.sig, cnt := s.tokenCount + s.raw.len }
 
+theorem raw_noEof (s : PState) : s.raw.NoEof := by
+  unfold PState.raw
+  split
+  · split
+    · trivial
+    · split
+      · assumption
+      · exact ⟨‹_›, rawS_noEof _ _⟩
+  · exact rawS_noEof _ _
+
+theorem abs_noEof (s : PState) : (abs s).σ.NoEof := (raw_noEof s).sig
+
 /-- the look-ahead slot is consistent: an error comes with the `Invalid` token; a filled
     look-ahead (outside `consumeCommentGroup`) never holds a comment -/
 def WF' (s : PState) : Prop := s.peeked = true → ∀ e, s.peekErr = some e → s.peekTok = invalidTok e
